@@ -56,6 +56,8 @@ pub enum VerifEvent
 {
     /// A cobweb command is being applied (emitted before any other work of the command).
     CommandApply{ kind: VerifCommandKind, target: Entity, source: Option<Entity>, data_entity: Option<Entity> },
+    /// A polled reaction (component removal or entity despawn) was detected and its command queued.
+    ReactionScheduled{ kind: VerifCommandKind, target: Entity, source: Entity },
     /// `syscommand_runner` was entered.
     RunnerEnter{ target: Entity, counter: usize },
     /// `syscommand_runner` decided what to do with the command.
